@@ -78,7 +78,14 @@ def run_case(res, spec, ne, flag, exprs, label):
         cons = impl.consistency_errors(v2, e2, c2)
         if cons:
             res.fail("oracle", "chain of two-point border interfaces: resampled mesh inconsistent: " + cons[0], replay, tag="D7-short-edge-chain")
-        res.count("chain case: correspondence and shape clauses skipped")
+        res.count("chain case: shape clauses skipped (known finding D7), correspondence kept")
+        # the model follows the id map and get_unused_id exactly, so the merge cascade itself is still tied to the code
+        after = snapshot_state(v2, e2, c2)
+        vs_l = "[" + "; ".join(f"({C.zlit(k)}, ({C.qlit(x)}, {C.qlit(y)}))" for k, x, y in after["v"]) + "]"
+        es_l = "[" + "; ".join(f"({C.zlit(k)}, ({C.zlit(a)}, {C.zlit(b)}))" for k, a, b in after["e"]) + "]"
+        cs_l = "[" + "; ".join(f"({C.zlit(k)}, {C.zlist(cy)})" for k, cy in after["c"]) + "]"
+        exprs.append((pre + f"match generate_mesh float_index junc ncells ({st}) {ne} {C.blit(flag)} with None => false | Some (st2, narr) => "
+                      f"listlistZ_eqb narr {C.zlistlist(narr)} && vs_eqb (vs st2) {vs_l} && es_eqb (es st2) {es_l} && cs_eqb (cs st2) {cs_l} end", replay))
         return
     after = snapshot_state(v2, e2, c2)
     bad = []
